@@ -13,6 +13,7 @@ clock at 2^64−1 as C05, see `C08_once_counterexample`):
         (runQ re cfg (Buf.start N c m) qs).2.1.Nodup
 -/
 import SerfProofs.Lemmas.EventBuf
+import SerfProofs.Props.C05
 import SerfModel.Model.QueryHandle
 import SerfModel.Gen.BufLocks
 import SerfModel.Gen.BufHandler
@@ -198,6 +199,67 @@ theorem C08_internal_hidden (evs : List AppEv) :
 `queryLock`, which makes the sequential model's step one atomic action under concurrent deliveries. -/
 theorem C08_handler_holds_lock : SerfModel.Gen.BufLocks.handleQuery.wholeBodyExclusive = true := by decide
 
+/-- **Deliver ⇔ first seen in the window ∧ selected** — no hypothesis. -/
+theorem C08_delivered_iff (b : Buf Nat) (q : QueryMsg) :
+    (handleQuery re cfg b q).2.delivered = true ↔
+      (firstInWindow b q ∧ ∀ f ∈ q.filters, passes re cfg f = true) := by
+  by_cases hf : firstInWindow b q
+  · rw [C08_deliver_iff re cfg b q hf]; simp [hf]
+  · have := (C08_not_first_nothing re cfg b q hf).1
+    simp [this, hf]
+
+theorem runQ_buf (qs : List QueryMsg) (b : Buf Nat) :
+    (runQ re cfg b qs).1 = (SerfModel.EventBuf.run b (asIns qs)).1 := (runQ_sublist re cfg qs b).1
+
+/-- **After any history of queries (no time 2^64−1): delivered ⇔ the query is not
+below the cut-off, inside the window, its (time, id) was not recorded before, and
+every filter selects the node.**  "Recorded before" is `deliveries … (asIns qs)`:
+the (time, id) pairs the node accepted as first-seen, whatever their filters said. -/
+theorem C08_delivered_iff_history_partial (N : Nat) (hN : 0 < N) (hN2 : N < 2 ^ 64) (c m : W)
+    (qs : List QueryMsg) (hnw : NoWrap (asIns qs)) (q : QueryMsg) :
+    (handleQuery re cfg (runQ re cfg (Buf.start N c m) qs).1 q).2.delivered = true ↔
+      (¬ q.lt < (runQ re cfg (Buf.start N c m) qs).1.minTime
+       ∧ ¬ q.lt.toNat + N < (witness (runQ re cfg (Buf.start N c m) qs).1.clock q.lt).toNat
+       ∧ (q.lt, q.id) ∉ deliveries (Buf.start N c m) (asIns qs)
+       ∧ ∀ f ∈ q.filters, passes re cfg f = true) := by
+  rw [C08_delivered_iff, runQ_buf]
+  unfold firstInWindow
+  rw [SerfProofs.C05.C05_delivered_iff_history_partial N hN hN2 c m (asIns qs) hnw q.lt q.id]
+  simp only [and_assoc]
+
+/-- **After any history: re-broadcast ⇔ not below the cut-off ∧ inside the window ∧
+not recorded before ∧ re-broadcast not disabled** — the filters do not occur. -/
+theorem C08_rebroadcast_iff_history_partial (N : Nat) (hN : 0 < N) (hN2 : N < 2 ^ 64) (c m : W)
+    (qs : List QueryMsg) (hnw : NoWrap (asIns qs)) (q : QueryMsg) :
+    (handleQuery re cfg (runQ re cfg (Buf.start N c m) qs).1 q).2.rebroadcast = true ↔
+      (¬ q.lt < (runQ re cfg (Buf.start N c m) qs).1.minTime
+       ∧ ¬ q.lt.toNat + N < (witness (runQ re cfg (Buf.start N c m) qs).1.clock q.lt).toNat
+       ∧ (q.lt, q.id) ∉ deliveries (Buf.start N c m) (asIns qs)
+       ∧ q.noBroadcast = false) := by
+  rw [C08_rebroadcast_iff, runQ_buf]
+  unfold firstInWindow
+  rw [SerfProofs.C05.C05_delivered_iff_history_partial N hN hN2 c m (asIns qs) hnw q.lt q.id]
+  simp only [and_assoc]
+
+/-- A first-time query inside the window is recorded, whatever the history (all
+64-bit times): if its (time, id) was not recorded before it is first-in-window —
+so it is delivered iff selected and re-broadcast iff not disabled. -/
+theorem C08_fresh_first (N : Nat) (hN2 : N < 2 ^ 64) (c m : W) (qs : List QueryMsg) (q : QueryMsg)
+    (hfirst : (q.lt, q.id) ∉ deliveries (Buf.start N c m) (asIns qs))
+    (hmin : ¬ q.lt < (runQ re cfg (Buf.start N c m) qs).1.minTime)
+    (hwin : ¬ q.lt.toNat + N < (witness (runQ re cfg (Buf.start N c m) qs).1.clock q.lt).toNat) :
+    firstInWindow (runQ re cfg (Buf.start N c m) qs).1 q := by
+  unfold firstInWindow
+  rw [runQ_buf] at hmin hwin ⊢
+  exact SerfProofs.C05.C05_fresh_delivered N hN2 c m (asIns qs) q.lt q.id hfirst hmin hwin
+
+-- non-vacuity: after the query (5, id 9) a second, different query at the same time is
+-- first-in-window; the repeat is not.
+example : firstInWindow (runQ exRe exCfg (Buf.start 4 1#64 0#64) [exQ1]).1 { exQ1 with id := 10 } := by
+  unfold firstInWindow; decide
+example : ¬ firstInWindow (runQ exRe exCfg (Buf.start 4 1#64 0#64) [exQ1]).1 exQ1 := by
+  unfold firstInWindow; decide
+
 /-- **Source tie (regenerated on every run): the body of `handleQuery`.** The
 translation of the function body in serf/serf.go: the same front half as
 `handleUserEvent` with `slices.Contains(seen.QueryIDs, query.ID)` as duplicate
@@ -329,6 +391,25 @@ theorem C08_forwarded_is_route (evs : List AppEv) :
     have : route InternalQueries.stream InternalQueries.switch false "" = .app := by
       rw [C08_route_app_iff]; simp
     simp [AppEv.isInternalQuery, this]
+
+/-- The query reaches the APPLICATION: `handleQuery` sends it on the node's event
+channel and `serfQueries.stream` (regenerated shape) forwards it. -/
+def appReceives (b : Buf Nat) (q : QueryMsg) : Bool :=
+  (handleQuery re cfg b q).2.delivered
+    && (route InternalQueries.stream InternalQueries.switch true q.name == .app)
+
+/-- **The application receives a query ⇔ it is first seen in the window, every filter
+selects the node, and its name does not carry the internal prefix** — for every
+name, known internal query or not. -/
+theorem C08_app_receives_iff (b : Buf Nat) (q : QueryMsg) :
+    appReceives re cfg b q = true ↔
+      (firstInWindow b q ∧ (∀ f ∈ q.filters, passes re cfg f = true) ∧ hasPrefix internalPrefix q.name = false) := by
+  unfold appReceives
+  rw [Bool.and_eq_true, C08_delivered_iff, beq_iff_eq, C08_route_app_iff]
+  simp [and_assoc]
+
+example : appReceives exRe exCfg (Buf.init 4) exQ1 = true := by decide
+example : appReceives exRe exCfg (Buf.init 4) { exQ1 with name := "_serf_anything" } = false := by decide
 
 end routing
 
